@@ -2886,7 +2886,7 @@ impl<T: Storage> Raft<T> {
     // TODO: revoke pub when there is a better way to test.
     /// For a given hardstate, load the state into self.
     pub fn load_state(&mut self, hs: &HardState) {
-        if hs.commit < self.raft_log.committed || hs.commit > self.raft_log.last_index() {
+        if hs.commit > self.raft_log.last_index() {
             fatal!(
                 self.logger,
                 "hs.commit {} is out of range [{}, {}]",
@@ -2895,7 +2895,12 @@ impl<T: Storage> Raft<T> {
                 self.raft_log.last_index()
             )
         }
-        self.raft_log.committed = hs.commit;
+        // The commit index is persisted lazily, so the stored one may lag behind what the
+        // application has applied and compacted since (everything below the first index of
+        // the log is committed): never lower the commit index the log starts with.
+        if hs.commit > self.raft_log.committed {
+            self.raft_log.committed = hs.commit;
+        }
         self.term = hs.term;
         self.vote = hs.vote;
     }
